@@ -4,7 +4,7 @@ import ast
 
 from ..cfg import CFG
 from ..core import (AnalysisError, body_nodes, call_name, dotted, is_self_attr, key_text, kwarg,
-                    names_in, params, stmts_of, unparse)
+                    names_in, params, parent, stmts_of, unparse)
 from ..dtable import run_paths
 from ..inline import inline_helpers
 from ..normal import inline_temps
@@ -756,6 +756,58 @@ def check_resume_keys(prog, rep):
                       'resume data must contain psi', g.lineno if g else 1)
 
 
+
+# ------------------------------------------------------------------ RESUME-checkpoint-guard
+def check_checkpoint_guard(prog, rep):
+    """The main loops emit `checkpoint` at the START of an iteration, i.e. for the state the
+    previous iteration of THIS run() call produced.  The first iteration of a call has nothing new
+    to save: on a resumed engine its state is the one the checkpoint being resumed from already
+    recorded (and measured).  So the emit is guarded, and by something local to the call: a guard
+    that reads engine attributes restored from the resume data (`self.sweeps > 0`) holds at once
+    on resume and repeats the checkpoint (duplicate measurements at checkpoints)."""
+    n = 0
+    for rel in ('tenpy/algorithms/mps_common.py', 'tenpy/algorithms/algorithm.py',
+                'tenpy/algorithms/dmrg.py', 'tenpy/algorithms/vumps.py'):
+        m = prog.module(rel)
+        for q, f in sorted(m.functions.items()):
+            if not q.endswith('.run'):
+                continue
+            for c in body_nodes(f):
+                if not (isinstance(c, ast.Call) and unparse(c.func) == 'self.checkpoint.emit'):
+                    continue
+                st = c
+                while not isinstance(st, ast.stmt):
+                    st = parent(st)
+                loop = st
+                while loop is not None and not isinstance(loop, (ast.While, ast.For)):
+                    loop = parent(loop) if not isinstance(loop, ast.FunctionDef) else None
+                if loop is None:
+                    continue
+                # is the emit at the start of the iteration (before the work of the iteration)?
+                work = [x for x in ast.walk(loop) if isinstance(x, ast.Call) and unparse(x.func) in (
+                    'self.run_iteration', 'self.sweep', 'self.update', 'self.run_evolution')]
+                if not work or min(w.lineno for w in work) < st.lineno:
+                    continue
+                n += 1
+                gs = [(t, pol) for t, pol, _ in guards_of(f, st)]
+                inner = [g for g in gs if g[0] != unparse(loop.test)] if isinstance(
+                    loop, ast.While) else gs
+                rep.instance('RESUME-checkpoint-guard', {'function': q, 'guards': [
+                    ('' if pol else 'not ') + t for t, pol in inner]})
+                if not inner:
+                    rep.violation('RESUME-checkpoint-guard', m, q, 'unguarded-emit',
+                                  'checkpoint is emitted at the start of every iteration, the '
+                                  'first one of the call included: a resumed run repeats the '
+                                  'checkpoint it was resumed from', st.lineno)
+                elif all('self.' in t for t, pol in inner):
+                    rep.violation('RESUME-checkpoint-guard', m, q, 'guard-on-restored-state',
+                                  'the emit is guarded by `%s` only; engine attributes are '
+                                  'restored from the resume data, so the guard already holds in '
+                                  'the first iteration of a resumed run(): the checkpoint (and '
+                                  'its measurements) are repeated' % inner[0][0], st.lineno)
+    return n
+
+
 def run(prog, rep, tier):
     rep.rule('CRASH-typestate', 'exhaustive abstract execution of save_results over file states '
              '(output, backup) in {absent, unloadable, complete}^2, closed under crash-after-any-'
@@ -794,6 +846,10 @@ def run(prog, rep, tier):
              'parameters are copied')
     if check_resume_ordering(prog, rep) < 2:
         raise AnalysisError('RESUME-read-before-consume / RESUME-seq-index: anchors not found')
+    rep.rule('RESUME-checkpoint-guard', 'a checkpoint emitted at the start of an iteration is skipped '
+             'in the first iteration of the call by a flag local to the call')
+    if check_checkpoint_guard(prog, rep) < 1:
+        raise AnalysisError('RESUME-checkpoint-guard: the emit of IterativeSweeps.run not found')
     rep.floor('CRASH-typestate', 8)
     rep.floor('RESUME-order', 2)
     rep.floor('RESUME-keys', 3)
